@@ -42,13 +42,14 @@ def ignore_copy(func: Callable[[T_Self, str], T_Retval]) -> Callable[[T_Self, st
     """
 
     def _getattr(self: T_Self, name: str) -> T_Retval:
+        # every special-method probe (copy, deepcopy and all pickle protocols, e.g. "__slots__" for protocols 0/1)
         if name in [
             "__copy__",
             "__deepcopy__",
             "__getstate__",
             "__setstate__",
             "__getnewargs__",
-        ]:
+        ] or (name.startswith("__") and name.endswith("__")):
             raise AttributeError(
                 "'%s' object has no attribute '%s'" % (self.__class__.__name__, name)
             )
